@@ -55,6 +55,15 @@ def run(ctx):
             types = {0: ty, 1: ty, 2: ty}
             ops_ix, out = ctx.rng.choice([([[0, 1], [1, 2]], [0, 2]), ([[0, 1], [0, 1]], [0]), ([[0, 1], [1, 0]], []), ([[0, 1], [1, 2], [2, 0]], [1])])
             alias = True
+        sumfree_bcast = k % 10 == 3
+        if sumfree_bcast:
+            # sum-free job over three vector operands, two or three of them stride-0 broadcasts, output in a permuted order: the
+            # no-grad path drops the broadcast dimensions before the einsum and has to put them back at the right positions
+            ty = random_type(ctx.rng, depth=0, sizes=[2, 3, 2]) if ctx.rng.random() < 0.6 else None
+            types = {l: (ty if ty is not None else random_type(ctx.rng, depth=0, sizes=[2, 3])) for l in range(3)}
+            ops_ix = [[0], [1], [2]]
+            out = [0, 1, 2]; ctx.rng.shuffle(out)
+            alias = None
         if math.prod([ty_numel(t) for t in types.values()] + [1]) > 3000:
             continue
         for name in ('real', 'log', 'viterbi', 'bool'):
@@ -75,8 +84,15 @@ def run(ctx):
                             for ix in ops_ix]
             if alias:
                 operands = [operands[0]] * len(operands)
+            if sumfree_bcast:
+                which = ctx.rng.sample(range(3), ctx.rng.choice([2, 3]))
+                for i in which:
+                    t = operands[i]
+                    if t.ndim >= 1 and t.shape[0] > 1:
+                        operands[i] = t[0].expand(*t.shape)
+                ctx.count('sumfree-broadcast-permuted-output')
             # a broadcast (stride-0) operand now and then
-            if operands and ctx.rng.random() < 0.25:
+            elif operands and ctx.rng.random() < 0.25:
                 i = ctx.rng.randrange(len(operands))
                 t = operands[i]
                 if t.ndim >= 1 and t.shape[0] > 1:
@@ -97,7 +113,7 @@ def run(ctx):
                 impl_ops = [PatternedTensor(t.physical.log(), t.paxes, t.vaxes, math.log(t.default) if t.default > 0 else -math.inf) for t in operands]
             else:
                 impl_ops = operands
-            rg = name in ('real', 'log') and ctx.rng.random() < 0.4
+            rg = name in ('real', 'log') and ctx.rng.random() < 0.4 and not sumfree_bcast
             if rg:
                 for t in impl_ops:
                     if t.physical.is_floating_point() and t.physical.numel():
